@@ -117,6 +117,14 @@ class StmtMixin:
         fr.out = self.materialize(self.seq_concat(fr.out, v))
 
     def ex_Assign(self, node, fr):
+        root = fr
+        while root is not None and root.contract is None and getattr(root, 'caller', None) is not None:
+            root = root.caller
+        dl = getattr(fr.contract, 'dropped_locals', None) if fr.contract is not None else None
+        if dl and len(node.targets) == 1 and isinstance(node.targets[0], ast.Name) and node.targets[0].id in dl:
+            # progress-bar bookkeeping named by the contract: dropped by extraction (DESIGN 2.2), never evaluated
+            fr.vars[node.targets[0].id] = VOpaque(None, 'dropped')
+            return
         v = self.ev(node.value, fr)
         for t in node.targets:
             self.assign(t, v, fr)
